@@ -980,12 +980,12 @@ class ManyToMany:
             other = iterable
             for k in other.data:
                 if k not in self.data:
-                    self.data[k] = other.data[k]
+                    self.data[k] = set(other.data[k])  # own set, not other's
                 else:
                     self.data[k].update(other.data[k])
             for k in other.inv.data:
                 if k not in self.inv.data:
-                    self.inv.data[k] = other.inv.data[k]
+                    self.inv.data[k] = set(other.inv.data[k])
                 else:
                     self.inv.data[k].update(other.inv.data[k])
         elif callable(getattr(iterable, 'keys', None)):
